@@ -1408,10 +1408,14 @@ package trzsz
 //@ end
 
 //@ func TrzszFilter.wrapOutput
+//@   # C06: a transfer handler is started exactly where the detector returned a trigger for the chunk just
+//@   # read - after the (rewritten) chunk was shown and the trigger recorded - and nowhere else
+//@   before go:TrzszFilter.handleTrzsz assert [C06] trigger != nil && filter.trigger == trigger && \
+//@       trigger == result_of("trzszDetector.detectTrzsz", 0, 1)
 //@   loop 1
 //@     invariant !detector.relay && detector.uniqueIDMap != nil
-//@   before writeAll#1 assert [C05] same(result_of("traceLogger.writeTraceLog", 0, 0), buffer[0:n]) ==> \
-//@       dst == filter.clientOut && same(data, buffer[0:n]) && n == result_of("io.Reader.Read", 0, 0)
+//@   before writeAll#1 assert [C05,C06] trigger == nil && (same(result_of("traceLogger.writeTraceLog", 0, 0), buffer[0:n]) ==> \
+//@       dst == filter.clientOut && same(data, buffer[0:n]) && n == result_of("io.Reader.Read", 0, 0))
 //@   before writeAll#0 assert [C05] same(result_of("traceLogger.writeTraceLog", 0, 0), buffer[0:n]) ==> \
 //@       dst == filter.clientOut && same(data, buffer[0:n])
 //@ end
@@ -1566,4 +1570,12 @@ package trzsz
 //@ # announced size as saved.
 //@ func trzszTransfer.pipelineRecvFinalAck
 //@   before send:ctx.succ assert [C02] step == size && result_of("strconv.ParseInt", 0, 1) == nil
+//@ end
+
+//@ # The relay's output pump starts a handshake exactly where its detector returned a trigger for the
+//@ # chunk just read, after switching to "handshaking" (so that nothing can overtake the trigger)
+//@ # and recording the trigger; in standby the chunk goes to the terminal as the detector returned it.
+//@ func TrzszRelay.wrapOutput
+//@   before go:TrzszRelay.handshake assert [C06] trigger != nil && trigger == result_of("trzszDetector.detectTrzsz", 0, 1)
+//@   before TrzszRelay.listenForTunnel assert [C06] trigger != nil && r.trigger == trigger
 //@ end
